@@ -720,6 +720,17 @@ class Interp:
                 return self.equals(a, b)
             if op == "!=":
                 return not self.equals(a, b)
+            if op == "^":
+                return (a is True) != (b is True)
+            if op in ("&", "|", "xor", "<<", ">>"):
+                from . import numeric
+                ka = "bigint" if isinstance(a, Big) else "byte" if isinstance(a, Byte) else "int"
+                kb = "bigint" if isinstance(b, Big) else "byte" if isinstance(b, Byte) else "int"
+                try:
+                    kk, vv = numeric.binop(op, ka, int(a), kb, int(b))
+                except numeric.Fail:
+                    self.fail("overflow")
+                return Big(vv) if kk == "bigint" else Byte(vv) if kk == "byte" else int(vv)
             if op in ("<", "<=", ">", ">="):
                 if a is None or b is None:
                     self.fail("nil")
